@@ -83,14 +83,17 @@ def r_cv(ctx, model):
     owner, f, _ = model.find_member(QVOL, "heat_capacity")
     if f is None:
         raise AnalysisError("anchor vanished: QHAVolumeBaseInterface.heat_capacity")
-    ev = make_ev(ctx, model)
-    vol = ev.get_attr(ev.get_attr(ev.seeds[(LONG, "calculator")], "qha_calculator"), "volume_base")
-    got = as_sym(ev.get_attr(vol, "heat_capacity"))
+    from ..facts import qha_settings, QHA_EXT
     want = CV / (U.Ry / U.K)
-    ctx.check(is_zero(got - want), "heat_capacity -> cv_tv_au", model.where(f"{QVOL}.heat_capacity", f),
-              expected="qha cv_tv_au (C_V(T,V) in Ry/K)", found=str(got),
-              explanation="the volume-base heat capacity must be qha's volumetric heat capacity on the (T,V) grid in "
-                          "atomic units (cv_tv_au); another field changes the gap", key="heat_capacity")
+    for unit in ("ry", "ev"):         # the values qha accepts for its energy_unit option (installed qha.statmech / qha.settings)
+        ev = make_ev(ctx, model)
+        ev.seeds[(QHA_EXT, "settings")] = qha_settings(energy_unit=unit)
+        vol = ev.get_attr(ev.get_attr(ev.seeds[(LONG, "calculator")], "qha_calculator"), "volume_base")
+        got = as_sym(ev.get_attr(vol, "heat_capacity"))
+        ctx.check(is_zero(got - want), f"heat_capacity -> cv_tv_au (qha energy_unit = {unit!r})", model.where(f"{QVOL}.heat_capacity", f),
+                  expected="qha cv_tv_au (C_V(T,V) in Ry/K)", found=str(got),
+                  explanation="the volume-base heat capacity must be qha's volumetric heat capacity on the (T,V) grid in "
+                              "atomic units (cv_tv_au) whatever the qha settings; another field or unit changes the gap", key=f"heat_capacity.{unit}")
 
 
 def r_shear(ctx, model):
